@@ -277,12 +277,57 @@ fn check_paths(c: &(u8, Vec<u8>, bool), st: &mut Stats) -> Verdict {
     compare("recipe path reference: plain spelling vs comments / blanks / wraps between the words of its names", &plain, &spelled, EXT_ALL, 1)
 }
 
+/// well-formed documents whose components, notes and references are wrapped over several lines:
+/// every line of each gets every trailing edit the property lists
+const WRAPPED_TEMPLATES: &[&str] = &[
+    "Mix @salt{\n  =1%tsp} well.\n",
+    "Mix @salt{\n =1 tsp} and @pepper{=\n2%g}.\n",
+    "@flour{\n200\n%\ng\n}(sifted\ntwice) goes in.\n",
+    "Use a #pan|skillet{\n} and #lid{\n1\n}.\n",
+    "Rest ~rest{\n10%min\n} then ~{\n5\n%\nmin}.\n",
+    "Knead @dough{1%kg}.\n\nBake @&(\n~1\n)dough{} and @&dough{\n=1%kg\n}.\n",
+    "@olive\noil{2%tbsp} with @sea\nsalt|salt{} and #big\npot{}.\n",
+    ">> title: My pie\n>> servings: 2 | 4\n\nMix @a{1\n-\n2%cups}.\n",
+    "> A note\n> over lines\n\nStep @x{1/\n2%l} one.\n\n= Part\n\nStep two.\n",
+    "@@green\npesto{1%jar} and @./sauces/red\nsauce{\n}.\n",
+];
+// (every edit starts with a blank: `-` followed by a glued `--c` would be another token; blanks are
+// ASCII spaces, the property speaks of trailing spaces and a tab inside a name is kept as it is)
+const TRAILING_EDITS: &[&str] = &[" -- c", " --c", " -- é", "   ", " ", " [- c -]", " [--]", " [- a -] [- b -]  ", " [- é -] -- ü"];
+
+fn check_wrapped(c: &(u8, u8, u8, bool), st: &mut Stats) -> Verdict {
+    let t = WRAPPED_TEMPLATES[c.0 as usize % WRAPPED_TEMPLATES.len()];
+    let lines: Vec<&str> = t.split_inclusive('\n').collect();
+    let i = c.1 as usize % lines.len();
+    let edit = TRAILING_EDITS[c.2 as usize % TRAILING_EDITS.len()];
+    let mut after = String::new();
+    for (k, l) in lines.iter().enumerate() {
+        if k == i {
+            after.push_str(l.trim_end_matches('\n'));
+            after.push_str(edit);
+            after.push('\n');
+        } else {
+            after.push_str(l);
+        }
+    }
+    if c.3 {
+        after = after.replace('\n', "\r\n");
+    }
+    st.nontrivial(&after);
+    st.sample(|| json!({"before": t, "after": after}));
+    for (ext, conv) in [(EXT_ALL, 1u8), (EXT_EMPTY, 0u8)] {
+        compare("a trailing comment / trailing blanks appended to one line of a wrapped component (and LF -> CRLF)", t, &after, ext, conv)?;
+    }
+    Ok(())
+}
+
 pub fn run(tier: Tier) -> i32 {
     let mut run = Run::new("C17", tier);
     run.assume("recipes are compared through their image with every run of whitespace inside step / paragraph text collapsed; diagnostics are not compared (spans move)");
     run.assume("line edits are applied to the Cooklang part only (a trailing `-- c` inside YAML front matter is YAML, not a comment)");
     run.replay_regressions(&|part, j| match part {
         "crlf-any" => check_crlf_any(&case_from(j)?, &mut Stats::default()),
+        "wrapped" => check_wrapped(&case_from(j)?, &mut Stats::default()),
         _ => check(&case_from(j)?, &mut Stats::default()),
     });
     if !run.failed() {
@@ -295,6 +340,16 @@ pub fn run(tier: Tier) -> i32 {
             },
             tier.pick(20_000, 2_000_000),
             check,
+        );
+    }
+    if !run.failed() {
+        run_prop(
+            &mut run,
+            "wrapped",
+            "10 well-formed documents whose quantities, notes, names, intermediate references and locks are wrapped over several lines: one of 9 trailing edits (line comment, block comments, blanks, tab) is appended to one line, optionally with LF -> CRLF, under all extensions and none; recipe, metadata-only parse and validity must not change; every case is non-trivial",
+            || (0u8..WRAPPED_TEMPLATES.len() as u8, any::<u8>(), 0u8..TRAILING_EDITS.len() as u8, any::<bool>()),
+            tier.pick(3_000, 60_000),
+            check_wrapped,
         );
     }
     for (part, mutate, n) in [("crlf-any", true, tier.pick(20_000, 2_000_000))] {
@@ -336,6 +391,7 @@ pub fn run(tier: Tier) -> i32 {
 pub fn replay(part: &str, j: &serde_json::Value) -> Verdict {
     match part {
         "paths" => check_paths(&case_from(j)?, &mut Stats::default()),
+        "wrapped" => check_wrapped(&case_from(j)?, &mut Stats::default()),
         "crlf-any" | "crlf-lines" => check_crlf_any(&case_from(j)?, &mut Stats::default()),
         _ => check(&case_from(j)?, &mut Stats::default()),
     }
